@@ -76,6 +76,21 @@ pub fn exec_bytes(t: &BytesTrace) -> Result<String, String> {
                         Err(e) => format!("parse error {}", e.to_string().len()),
                     }
                 }
+                "statement_from_slice" => format!("{:?}", serde_json::from_slice::<in_toto::models::StatementWrapper>(&data).map(|_| 0).map_err(|e| e.to_string().len())),
+                "predicate_from_slice" => format!("{:?}", serde_json::from_slice::<in_toto::models::PredicateWrapper>(&data).map(|_| 0).map_err(|e| e.to_string().len())),
+                "layout_selfverify" => {
+                    // a layout block checked against the keys its own key table names (nothing is trusted)
+                    match serde_json::from_slice::<Metablock>(&data) {
+                        Ok(m) => match &m.metadata {
+                            in_toto::models::MetadataWrapper::Layout(l) => {
+                                let ks: Vec<PublicKey> = l.keys.values().cloned().collect();
+                                format!("{:?}", m.verify(1, ks.iter()).is_ok())
+                            }
+                            in_toto::models::MetadataWrapper::Link(_) => "link".to_string(),
+                        },
+                        Err(e) => format!("parse error {}", e.to_string().len()),
+                    }
+                }
                 "calculate_hashes" => {
                     let rd = SimReader::new(&data, t2.sched_seed, t2.chunked, t2.eintr_pct, t2.fail_at);
                     format!(
@@ -180,6 +195,7 @@ fn key_file_case(r: &mut Rng, seed: u64) -> BytesTrace {
         KeyKind::Ed | KeyKind::EdPk8 => "ed25519",
         KeyKind::Ecdsa => "ecdsa-sha2-nistp256",
         KeyKind::Rsa2048S256 | KeyKind::Rsa4096S256 => "rsassa-pss-sha256",
+        KeyKind::RsaUnknown => "rsassa-pss-sha384",
         _ => "rsassa-pss-sha512",
     };
     let (entry, mut data): (&str, Vec<u8>) = match r.below(5) {
@@ -211,7 +227,18 @@ fn key_file_case(r: &mut Rng, seed: u64) -> BytesTrace {
 fn stream_case(r: &mut Rng, seed: u64, doc: Vec<u8>) -> BytesTrace {
     let mut data = doc;
     let mut labels = vec![];
-    let entry = *r.pick(&["metablock_from_reader", "metablock_from_slice", "metablock_verify", "calculate_hashes"]);
+    let entry = *r.pick(&["metablock_from_reader", "metablock_from_slice", "metablock_verify", "layout_selfverify", "statement_from_slice", "predicate_from_slice", "calculate_hashes"]);
+    if entry == "statement_from_slice" || entry == "predicate_from_slice" {
+        let (kind, v) = loop {
+            let sd = seed ^ r.next();
+            let (k, v) = crate::channel::gen_document(r, sd);
+            if (entry == "statement_from_slice" && k == "statement") || (entry == "predicate_from_slice" && k == "predicate") {
+                break (k, v);
+            }
+        };
+        let _ = kind;
+        data = serde_json::to_vec(&v).unwrap_or_default();
+    }
     if entry == "calculate_hashes" {
         let n = *r.pick(&[0usize, 1, 1023, 1024, 1025, 2048, 8192, 100_000]);
         data = r.bytes(n);
